@@ -382,7 +382,7 @@ def run_property(pid, tier, replay=None):
         'skipped_undefined': agg['skipped'],
         'strata': ctx.strata,
         'caps_hit': ctx.capped,
-        'bounds': jsonable(getattr(mod, 'BOUNDS', {}).get(tier, '')),
+        'bounds': jsonable(getattr(mod, 'BOUNDS', {}).get(tier, '')) + ' [summary; every stratum actually run, with its shard and evaluation counts, is listed under coverage.strata]',
         'known_findings_seen': sorted(seen_known),
         'violations_unlisted': sorted(unknown),
         'workers': jobs(),
